@@ -42,4 +42,16 @@ theorem every_constructed_node_is_dirty : nodeLiterals = nodeLiteralsWithNewFlag
 theorem iterator_loop_matches_source :
     iterLoopInit = "i := parent.index + 1" ∧ iterLoopCond = "i < len(node.Children)" := by decide
 
+/-- the trie package keeps no mutable package-level state: its package variables are these seven
+    (constants, the error value, the hasher `sync.Pool`) and nothing assigns to them or into them —
+    so calls cannot influence one another through package state (the pool's scratch buffers are
+    exercised by the retention / repeated-history streams of the correspondence run) -/
+theorem no_package_state_written :
+    packageVars = "emptyRoot,emptyState,errIteratorEnd,hasherPool,indices,nilValueNode,secureKeyPrefix" ∧
+    packageVarWrites = 0 := by decide
+
+/-- nothing in the trie package reads a proposal flag, the chain configuration or the block
+    height: the property has no fork-configuration-dependent path -/
+theorem no_fork_configuration_reads : forkConfigReads = 0 := by decide
+
 end Rangers.Props.C02Facts
